@@ -286,8 +286,9 @@ func Hex(b []byte) string { return fmt.Sprintf("%x", b) }
 
 // Session drives one ech.Conn record by record over a non-blocking transport.
 type Session struct {
-	T *memnet.Conn
-	C *ech.Conn
+	T   *memnet.Conn
+	C   *ech.Conn
+	buf []byte
 }
 
 // OpenSession feeds the first flight and runs NewConn. The transport is left open
@@ -316,9 +317,11 @@ func (s *Session) ReadOnce() (data []byte, err error, panicked any) {
 			panicked = p
 		}
 	}()
-	buf := make([]byte, 70000)
-	n, err := s.C.Read(buf)
-	return buf[:n], err, nil
+	if s.buf == nil {
+		s.buf = make([]byte, 70000)
+	}
+	n, err := s.C.Read(s.buf)
+	return append([]byte{}, s.buf[:n]...), err, nil
 }
 
 // ClientSend feeds one complete record from the client and reads once.
